@@ -83,6 +83,11 @@ func encStream(rep *lib.Report, seed int64, perKindChain int, write bool) {
 			}
 		}
 	}
+	if n := rep.Histogram["enc:uint64>=2^63 differs from contract (int64 cast)"]; n > 0 {
+		rep.Notes = append(rep.Notes, fmt.Sprintf("observation (not a finding): %d generated objects with a uint64 field >= 2^63 (nonce, time-out, event nonce or member power) "+
+			"get a checkpoint that differs from the contract's digest because the Go code packs big.NewInt(int64(x)) (theorems C12_layout_agrees_iff / C12_uint64_cast_refuted); "+
+			"such values need 2^63 objects or a quorum-claimed external height >= 2^63 and are judged unreachable", n))
+	}
 	kept := items[:0]
 	for _, it := range items {
 		if it != "" {
@@ -102,8 +107,7 @@ func encCase(rep *lib.Report, chain string, o *Obj, gid string, key string) stri
 		rep.Fail(lib.Failure{Kind: "harness", What: fmt.Sprintf("GetCheckpoint failed on a valid object: %v", err), Sig: "C12/enc-error"})
 		return ""
 	}
-	pre := Encode(o, gid, true)
-	hashOK := bytes.Equal(keccak(pre), cp)
+	pre, hashOK := hashedBytes(o, gid, cp)
 	// monitor: the signed checkpoint is the digest the contract recomputes from the same values
 	contract := keccak(Encode(o, gid, false))
 	replay := map[string]interface{}{"stream": "enc", "chain": chain, "gravity_id": []byte(gid), "object": o, "checkpoint": fmt.Sprintf("%x", cp), "contract_digest": fmt.Sprintf("%x", contract)}
@@ -123,7 +127,7 @@ func encCase(rep *lib.Report, chain string, o *Obj, gid string, key string) stri
 	rep.Count("enc-kind:" + kindName[o.Kind])
 	rep.Case(key, true)
 	rep.Sample(map[string]interface{}{"chain": chain, "object": o.Brief(), "checkpoint": fmt.Sprintf("%x", cp)})
-	return fmt.Sprintf("mk_enc_case %s %s %s %s", bytesL([]byte(gid)), o.Coq(), lib.Bool(hashOK), bytesL(pre))
+	return fmt.Sprintf("mk_enc_case %s %s %s %s %s", lib.Bool(chain == "tron"), bytesL([]byte(gid)), o.Coq(), lib.Bool(hashOK), bytesL(pre))
 }
 
 // ---------------------------------------------------------------- conf stream
